@@ -267,10 +267,24 @@ func MultipleOf(path, in string, data, factor float64) *errors.Validation {
 	} else {
 		mult = data / factor
 	}
-	if !swag.IsFloat64AJSONInteger(mult) {
+	if !isIntegerQuotient(mult) {
 		return errors.NotMultipleOf(path, in, factor, data)
 	}
 	return nil
+}
+
+// isIntegerQuotient tells whether a quotient is an integer, up to the accuracy of float64 arithmetic.
+//
+// The quotient of two decimal fractions may come out just below an integer (e.g. 0.29 / 0.01 yields
+// 28.999999999999996): such a value is a multiple, just like one that comes out just above.
+func isIntegerQuotient(q float64) bool {
+	if swag.IsFloat64AJSONInteger(q) {
+		return true
+	}
+	const epsilon = 1e-9 // the relative tolerance swag.IsFloat64AJSONInteger applies above an integer
+	r := math.Round(q)
+
+	return r != 0 && !math.IsInf(r, 0) && math.Abs(q-r) < epsilon*math.Abs(r)
 }
 
 // MultipleOfInt validates if the provided integer is a multiple of the factor
